@@ -356,6 +356,9 @@ def qualname (p : NProg) : Nat → Nat → List String
       | .klass => qualname p fuel par ++ [p.sname s]
       | _ => qualname p fuel par ++ ["<locals>", p.sname s]
 
+/-- `__qualname__` at a fuel that matches `ctxQual p p.fuel` one level up -/
+def qualnameOf (p : NProg) (s : Nat) : List String := qualname p (p.fuel + 1) s
+
 /-- every scope on the chain above `s` is a class (or the module) -/
 def allClassAncestors (p : NProg) : Nat → Nat → Bool
   | 0, _ => false
